@@ -16,6 +16,11 @@ BASELINE_FAIL = {"test_asyncio_await_method", "test_doist_dos", "test_filing", "
                  "test_requester_respondent_echo_tls"}     # fail on the unmodified tree (tree tests, PYTHONPATH=<wt>/src)
 
 
+# real-time / multiprocess tests with 0.07-0.1 s limits: they fail now and then on the unmodified tree whenever several suites run at
+# once (observed on clean trees by every seeding agent); a failure of one of them is not attributed to the change under test
+FLAKY_UNDER_LOAD = {"test_boss_crew_basic", "test_boss_crew_basic_multi", "test_doist_asyncio"}
+
+
 def run_tree_tests():
     """the repository's own tests against the scratch worktree's sources, in a private network namespace"""
     # private network namespace (fixed ports) and private mounts over the fixed directories the tests write to
@@ -25,7 +30,7 @@ def run_tree_tests():
            "timeout 1500 /venv/bin/python -m pytest -q -p no:cacheprovider tests 2>&1 | tail -15" % (WT, WT)]
     r = subprocess.run(cmd, capture_output=True, text=True)
     import re
-    failed = set(re.findall(r"FAILED \S+::(\w+)", r.stdout))
+    failed = set(re.findall(r"FAILED \S+::(\w+)", r.stdout)) - FLAKY_UNDER_LOAD
     tail = r.stdout.strip().splitlines()[-1] if r.stdout.strip() else "no output"
     return sorted(failed - BASELINE_FAIL), tail
 
